@@ -9,37 +9,173 @@ variable {K V D : Type}
 
 /-! ### L2 -/
 
-theorem hashBytes_erase (hc : HashCfg K V D) (p : Pg K V D) : p.erase.hashBytes hc = p.hashBytes hc := by
-  sorry
+mutual
+theorem hashBytes_erasePg (hc : HashCfg K V D) : (p : Pg K V D) → p.erase.hashBytes hc = p.hashBytes hc
+  | .none => rfl
+  | .some L c n h => by
+    simp only [Pg.erase, Pg.hashBytes, hashBytes_eraseNd hc n, hashBytes_erasePg hc h]
+theorem hashBytes_eraseNd (hc : HashCfg K V D) : (n : Nd K V D) → n.erase.hashBytes hc = n.hashBytes hc
+  | .nil => rfl
+  | .cons lt k v tl => by
+    simp only [Nd.erase, Nd.hashBytes, hashBytes_erasePg hc lt, hashBytes_eraseNd hc tl]
+end
+
+theorem hashBytes_erase (hc : HashCfg K V D) (p : Pg K V D) : p.erase.hashBytes hc = p.hashBytes hc :=
+  hashBytes_erasePg hc p
 
 theorem trueHash_erase (hc : HashCfg K V D) (p : Pg K V D) : p.erase.trueHash hc = p.trueHash hc := by
-  sorry
+  cases p with
+  | none => rfl
+  | some L c n h =>
+    simp only [Pg.erase, Pg.trueHash, hashBytes_eraseNd hc n, hashBytes_erasePg hc h]
 
-theorem content_erase (p : Pg K V D) : p.erase.content = p.content := by
-  sorry
+mutual
+theorem content_erasePg : (p : Pg K V D) → p.erase.content = p.content
+  | .none => rfl
+  | .some L c n h => by
+    simp only [Pg.erase, Pg.content, content_eraseNd n, content_erasePg h]
+theorem content_eraseNd : (n : Nd K V D) → n.erase.content = n.content
+  | .nil => rfl
+  | .cons lt k v tl => by
+    simp only [Nd.erase, Nd.content, content_erasePg lt, content_eraseNd tl]
+end
 
-theorem LvPg_erase (lvl : K → Nat) (b : Nat) (p : Pg K V D) : LvPg lvl b p.erase ↔ LvPg lvl b p := by
-  sorry
+theorem content_erase (p : Pg K V D) : p.erase.content = p.content := content_erasePg p
+
+theorem Nd.erase_eq_nil (n : Nd K V D) : n.erase = .nil ↔ n = .nil := by
+  cases n <;> simp [Nd.erase]
+
+theorem Pg.erase_eq_none (p : Pg K V D) : p.erase = .none ↔ p = .none := by
+  cases p <;> simp [Pg.erase]
+
+mutual
+theorem LvPg_erasePg (lvl : K → Nat) : (b : Nat) → (p : Pg K V D) → (LvPg lvl b p.erase ↔ LvPg lvl b p)
+  | _, .none => Iff.rfl
+  | b, .some L c n h => by
+    simp only [Pg.erase, LvPg, LvPg_eraseNd lvl L n, LvPg_erasePg lvl L h, ne_eq, Nd.erase_eq_nil]
+theorem LvPg_eraseNd (lvl : K → Nat) : (L : Nat) → (n : Nd K V D) → (LvNd lvl L n.erase ↔ LvNd lvl L n)
+  | _, .nil => Iff.rfl
+  | L, .cons lt k v tl => by
+    simp only [Nd.erase, LvNd, LvPg_erasePg lvl L lt, LvPg_eraseNd lvl L tl]
+end
+
+theorem LvPg_erase (lvl : K → Nat) (b : Nat) (p : Pg K V D) : LvPg lvl b p.erase ↔ LvPg lvl b p :=
+  LvPg_erasePg lvl b p
 
 theorem LvRoot_erase (lvl : K → Nat) (p : Pg K V D) : LvRoot lvl p.erase ↔ LvRoot lvl p := by
-  sorry
+  cases p with
+  | none => exact Iff.rfl
+  | some L c n h =>
+    simp only [Pg.erase, LvRoot, LvPg_eraseNd lvl L n, LvPg_erasePg lvl L h, Nd.erase_eq_nil,
+      Pg.erase_eq_none]
 
-theorem clean_cacheOK (hc : HashCfg K V D) (p : Pg K V D) : CleanPg hc p → CacheOKPg hc p := by
-  sorry
+mutual
+theorem clean_cacheOKPg (hc : HashCfg K V D) : (p : Pg K V D) → CleanPg hc p → CacheOKPg hc p
+  | .none, _ => trivial
+  | .some L c n h, hp => by
+    have hp' := hp
+    simp only [CleanPg] at hp'
+    simp only [CacheOKPg]
+    exact ⟨fun _ => hp, clean_cacheOKNd hc n hp'.2.1, clean_cacheOKPg hc h hp'.2.2⟩
+theorem clean_cacheOKNd (hc : HashCfg K V D) : (n : Nd K V D) → CleanNd hc n → CacheOKNd hc n
+  | .nil, _ => trivial
+  | .cons lt k v tl, hn => by
+    simp only [CleanNd] at hn
+    simp only [CacheOKNd]
+    exact ⟨clean_cacheOKPg hc lt hn.1, clean_cacheOKNd hc tl hn.2⟩
+end
+
+theorem clean_cacheOK (hc : HashCfg K V D) (p : Pg K V D) : CleanPg hc p → CacheOKPg hc p :=
+  clean_cacheOKPg hc p
 
 theorem clean_cache (hc : HashCfg K V D) (p : Pg K V D) : CleanPg hc p → p.cache? = p.trueHash hc := by
-  sorry
+  cases p with
+  | none => intro _; rfl
+  | some L c n h =>
+    intro hp
+    simp only [CleanPg] at hp
+    simp only [Pg.cache?, Pg.trueHash, hp.1]
+
+theorem clean_cacheBytes (hc : HashCfg K V D) (p : Pg K V D) (hp : CleanPg hc p) :
+    p.cacheBytes hc = p.hashBytes hc := by
+  cases p with
+  | none => rfl
+  | some L c n h =>
+    simp only [CleanPg] at hp
+    rw [hp.1]
+    simp only [Pg.cacheBytes, Pg.hashBytes]
+
+theorem clean_bytes (hc : HashCfg K V D) : (n : Nd K V D) → CleanNd hc n → n.bytes hc = n.hashBytes hc
+  | .nil, _ => rfl
+  | .cons lt k v tl, hn => by
+    simp only [CleanNd] at hn
+    simp only [Nd.bytes, Nd.hashBytes, clean_cacheBytes hc lt hn.1, clean_bytes hc tl hn.2,
+      List.append_assoc]
+
+mutual
+theorem genPg_specPg (hc : HashCfg K V D) : (p : Pg K V D) → CacheOKPg hc p →
+    CleanPg hc (genPg hc p) ∧ (genPg hc p).erase = p.erase
+  | .none, _ => by simp [genPg, CleanPg]
+  | .some L (.some d) n h, hp => by
+    simp only [CacheOKPg] at hp
+    simp only [genPg]
+    exact ⟨hp.1 (by simp), trivial⟩
+  | .some L .none n h, hp => by
+    simp only [CacheOKPg] at hp
+    obtain ⟨hn1, hn2⟩ := genPg_specNd hc n hp.2.1
+    obtain ⟨hh1, hh2⟩ := genPg_specPg hc h hp.2.2
+    simp only [genPg, CleanPg, Pg.erase, hn2, hh2, clean_bytes hc _ hn1, clean_cacheBytes hc _ hh1]
+    exact ⟨⟨trivial, hn1, hh1⟩, trivial⟩
+theorem genPg_specNd (hc : HashCfg K V D) : (n : Nd K V D) → CacheOKNd hc n →
+    CleanNd hc (genNd hc n) ∧ (genNd hc n).erase = n.erase
+  | .nil, _ => by simp [genNd, CleanNd]
+  | .cons lt k v tl, hn => by
+    simp only [CacheOKNd] at hn
+    obtain ⟨h1, h2⟩ := genPg_specPg hc lt hn.1
+    obtain ⟨t1, t2⟩ := genPg_specNd hc tl hn.2
+    simp only [genNd, CleanNd, Nd.erase, h2, t2]
+    exact ⟨⟨h1, t1⟩, trivial⟩
+end
 
 /-- `maybe_generate_hash` on a cache-consistent subtree leaves every page cached with its true
 digest and changes nothing but caches. -/
 theorem genPg_spec (hc : HashCfg K V D) (p : Pg K V D) (h : CacheOKPg hc p) :
-    CleanPg hc (genPg hc p) ∧ (genPg hc p).erase = p.erase := by
-  sorry
+    CleanPg hc (genPg hc p) ∧ (genPg hc p).erase = p.erase :=
+  genPg_specPg hc p h
+
+mutual
+theorem clean_eq_of_erase_eqPg (hc : HashCfg K V D) : (p q : Pg K V D) →
+    CleanPg hc p → CleanPg hc q → p.erase = q.erase → p = q
+  | .none, .none, _, _, _ => rfl
+  | .none, .some .., _, _, h => by simp [Pg.erase] at h
+  | .some .., .none, _, _, h => by simp [Pg.erase] at h
+  | .some L c n h, .some L' c' n' h', hp, hq, he => by
+    simp only [CleanPg] at hp hq
+    simp only [Pg.erase, Pg.some.injEq, true_and] at he
+    obtain ⟨hL, hn, hh⟩ := he
+    have en := clean_eq_of_erase_eqNd hc n n' hp.2.1 hq.2.1 hn
+    have eh := clean_eq_of_erase_eqPg hc h h' hp.2.2 hq.2.2 hh
+    subst hL en eh
+    rw [hp.1, hq.1]
+theorem clean_eq_of_erase_eqNd (hc : HashCfg K V D) : (n m : Nd K V D) →
+    CleanNd hc n → CleanNd hc m → n.erase = m.erase → n = m
+  | .nil, .nil, _, _, _ => rfl
+  | .nil, .cons .., _, _, h => by simp [Nd.erase] at h
+  | .cons .., .nil, _, _, h => by simp [Nd.erase] at h
+  | .cons lt k v tl, .cons lt' k' v' tl', hn, hm, he => by
+    simp only [CleanNd] at hn hm
+    simp only [Nd.erase, Nd.cons.injEq] at he
+    obtain ⟨hl, hk, hv, ht⟩ := he
+    have el := clean_eq_of_erase_eqPg hc lt lt' hn.1 hm.1 hl
+    have et := clean_eq_of_erase_eqNd hc tl tl' hn.2 hm.2 ht
+    subst hk hv el et
+    rfl
+end
 
 /-- Two clean trees with the same erasure are identical (caches included). -/
 theorem clean_eq_of_erase_eq (hc : HashCfg K V D) (p q : Pg K V D)
-    (hp : CleanPg hc p) (hq : CleanPg hc q) (h : p.erase = q.erase) : p = q := by
-  sorry
+    (hp : CleanPg hc p) (hq : CleanPg hc q) (h : p.erase = q.erase) : p = q :=
+  clean_eq_of_erase_eqPg hc p q hp hq h
 
 theorem genRootHash_inv [LT K] (lvl : K → Nat) (hc : HashCfg K V D) (t : Tree K V D)
     (hinv : Inv lvl hc t) :
@@ -48,19 +184,189 @@ theorem genRootHash_inv [LT K] (lvl : K → Nat) (hc : HashCfg K V D) (t : Tree 
       (t.genRootHash hc).rootHash.isSome ∧
       (t.genRootHash hc).root.erase = t.root.erase ∧
       CleanPg hc (t.genRootHash hc).root := by
-  sorry
+  obtain ⟨hclean, herase⟩ := genPg_spec hc t.root hinv.cacheOK
+  have hhash : (genPg hc t.root).cache? = t.root.trueHash hc := by
+    rw [clean_cache hc _ hclean, ← trueHash_erase, herase, trueHash_erase]
+  have hcontent : (genPg hc t.root).content = t.root.content := by
+    rw [← content_erase, herase, content_erase]
+  refine ⟨⟨?_, ?_, ?_, ?_⟩, hhash, ?_, herase, hclean⟩
+  · show LvRoot lvl (genPg hc t.root)
+    rw [← LvRoot_erase, herase, LvRoot_erase]
+    exact hinv.shape
+  · show (genPg hc t.root).Sorted
+    have := hinv.sorted
+    unfold Pg.Sorted Pg.keys at this ⊢
+    rw [hcontent]; exact this
+  · exact clean_cacheOK hc _ hclean
+  · intro d hd; exact hd
+  · show (genPg hc t.root).cache?.isSome
+    rw [hhash]
+    have := hinv.shape
+    cases hr : t.root with
+    | none => rw [hr] at this; exact absurd this (by simp [LvRoot])
+    | some L c n h => simp [Pg.trueHash]
 
 /-! ### L3: canonical form -/
+
+/-- The first element satisfying `P` splits a list uniquely. -/
+theorem List.split_unique {α : Type} (P : α → Prop) :
+    ∀ (l1 l2 : List α) (a b : α) (r1 r2 : List α),
+      (∀ x ∈ l1, ¬ P x) → (∀ x ∈ l2, ¬ P x) → P a → P b →
+      l1 ++ a :: r1 = l2 ++ b :: r2 → l1 = l2 ∧ a = b ∧ r1 = r2
+  | [], [], a, b, r1, r2, _, _, _, _, h => by
+    simp only [List.nil_append, List.cons.injEq] at h
+    exact ⟨rfl, h.1, h.2⟩
+  | [], y :: l2, a, b, r1, r2, _, h2, ha, _, h => by
+    simp only [List.nil_append, List.cons_append, List.cons.injEq] at h
+    exact absurd (h.1 ▸ ha) (h2 y (List.mem_cons_self ..))
+  | x :: l1, [], a, b, r1, r2, h1, _, _, hb, h => by
+    simp only [List.nil_append, List.cons_append, List.cons.injEq] at h
+    exact absurd (h.1 ▸ hb) (h1 x (List.mem_cons_self ..))
+  | x :: l1, y :: l2, a, b, r1, r2, h1, h2, ha, hb, h => by
+    simp only [List.cons_append, List.cons.injEq] at h
+    obtain ⟨e1, e2, e3⟩ := List.split_unique P l1 l2 a b r1 r2
+      (fun z hz => h1 z (List.mem_cons_of_mem _ hz))
+      (fun z hz => h2 z (List.mem_cons_of_mem _ hz)) ha hb h.2
+    exact ⟨by rw [h.1, e1], e2, e3⟩
+
+mutual
+theorem LvPg_content_lt (lvl : K → Nat) : (b : Nat) → (p : Pg K V D) → LvPg lvl b p →
+    ∀ kv ∈ p.content, lvl kv.1 < b
+  | _, .none, _, kv, hkv => by simp [Pg.content] at hkv
+  | b, .some L c n h, hp, kv, hkv => by
+    simp only [LvPg] at hp
+    simp only [Pg.content, List.mem_append] at hkv
+    rcases hkv with hkv | hkv
+    · exact Nat.lt_of_le_of_lt (LvNd_content_le lvl L n hp.2.2.1 kv hkv) hp.1
+    · exact Nat.lt_trans (LvPg_content_lt lvl L h hp.2.2.2 kv hkv) hp.1
+theorem LvNd_content_le (lvl : K → Nat) : (L : Nat) → (n : Nd K V D) → LvNd lvl L n →
+    ∀ kv ∈ n.content, lvl kv.1 ≤ L
+  | _, .nil, _, kv, hkv => by simp [Nd.content] at hkv
+  | L, .cons lt k v tl, hn, kv, hkv => by
+    simp only [LvNd] at hn
+    simp only [Nd.content, List.mem_append, List.mem_cons] at hkv
+    rcases hkv with hkv | hkv | hkv
+    · exact Nat.le_of_lt (LvPg_content_lt lvl L lt hn.1 kv hkv)
+    · rw [hkv]; exact Nat.le_of_eq hn.2.1
+    · exact LvNd_content_le lvl L tl hn.2.2 kv hkv
+end
+
+theorem LvPg_some_content_ne_nil (lvl : K → Nat) (b L : Nat) (c : Option D) (n : Nd K V D)
+    (h : Pg K V D) (hp : LvPg lvl b (.some L c n h)) : (Pg.some L c n h).content ≠ [] := by
+  simp only [LvPg] at hp
+  cases n with
+  | nil => exact absurd rfl hp.2.1
+  | cons lt k v tl => simp [Pg.content, Nd.content]
+
+/-- The level of a non-empty stratified page is determined by its content. -/
+theorem LvPg_level_le (lvl : K → Nat) (b1 b2 L1 L2 : Nat) (c1 c2 : Option D) (n1 n2 : Nd K V D)
+    (h1 h2 : Pg K V D) (hp : LvPg lvl b1 (.some L1 c1 n1 h1)) (hq : LvPg lvl b2 (.some L2 c2 n2 h2))
+    (h : (Pg.some L1 c1 n1 h1).content = (Pg.some L2 c2 n2 h2).content) : L1 ≤ L2 := by
+  have hp' := hp
+  simp only [LvPg] at hp'
+  cases n1 with
+  | nil => exact absurd rfl hp'.2.1
+  | cons lt k v tl =>
+    have hk : lvl k = L1 := by
+      have := hp'.2.2.1; simp only [LvNd] at this; exact this.2.1
+    have hmem : (k, v) ∈ (Pg.some L1 c1 (.cons lt k v tl) h1).content := by
+      simp [Pg.content, Nd.content]
+    rw [h] at hmem
+    have := LvPg_content_lt lvl (L2 + 1) (.some L2 c2 n2 h2)
+      (by simp only [LvPg] at hq ⊢; exact ⟨Nat.lt_succ_self _, hq.2⟩) (k, v) hmem
+    simp only at this
+    omega
+
+mutual
+theorem shape_uniquePg (lvl : K → Nat) : (p q : Pg K V D) → (b1 b2 : Nat) →
+    LvPg lvl b1 p → LvPg lvl b2 q → p.content = q.content → p.erase = q.erase
+  | .none, .none, _, _, _, _, _ => rfl
+  | .none, .some L c n h, _, b2, _, hq, he => by
+    exact absurd he.symm (LvPg_some_content_ne_nil lvl b2 L c n h hq)
+  | .some L c n h, .none, b1, _, hp, _, he => by
+    exact absurd he (LvPg_some_content_ne_nil lvl b1 L c n h hp)
+  | .some L1 c1 n1 h1, .some L2 c2 n2 h2, b1, b2, hp, hq, he => by
+    have hL : L1 = L2 := Nat.le_antisymm
+      (LvPg_level_le lvl b1 b2 L1 L2 c1 c2 n1 n2 h1 h2 hp hq he)
+      (LvPg_level_le lvl b2 b1 L2 L1 c2 c1 n2 n1 h2 h1 hq hp he.symm)
+    subst hL
+    simp only [LvPg] at hp hq
+    simp only [Pg.content] at he
+    obtain ⟨en, eh⟩ := shape_uniqueNd lvl n1 n2 L1 h1.content h2.content hp.2.2.1 hq.2.2.1
+      (LvPg_content_lt lvl L1 h1 hp.2.2.2) (LvPg_content_lt lvl L1 h2 hq.2.2.2) he
+    have eh' := shape_uniquePg lvl h1 h2 L1 L1 hp.2.2.2 hq.2.2.2 eh
+    simp only [Pg.erase, en, eh']
+theorem shape_uniqueNd (lvl : K → Nat) : (n1 n2 : Nd K V D) → (L : Nat) → (r1 r2 : List (K × V)) →
+    LvNd lvl L n1 → LvNd lvl L n2 → (∀ kv ∈ r1, lvl kv.1 < L) → (∀ kv ∈ r2, lvl kv.1 < L) →
+    n1.content ++ r1 = n2.content ++ r2 → n1.erase = n2.erase ∧ r1 = r2
+  | .nil, .nil, _, _, _, _, _, _, _, he => by
+    simp only [Nd.content, List.nil_append] at he
+    exact ⟨rfl, he⟩
+  | .nil, .cons lt k v tl, L, r1, r2, _, h2, hr1, _, he => by
+    simp only [LvNd] at h2
+    have hmem : (k, v) ∈ r1 := by
+      simp only [Nd.content, List.nil_append] at he
+      rw [he]; simp
+    have := hr1 _ hmem
+    simp only at this
+    omega
+  | .cons lt k v tl, .nil, L, r1, r2, h1, _, _, hr2, he => by
+    simp only [LvNd] at h1
+    have hmem : (k, v) ∈ r2 := by
+      simp only [Nd.content, List.nil_append] at he
+      rw [← he]; simp
+    have := hr2 _ hmem
+    simp only at this
+    omega
+  | .cons lt1 k1 v1 tl1, .cons lt2 k2 v2 tl2, L, r1, r2, h1, h2, hr1, hr2, he => by
+    simp only [LvNd] at h1 h2
+    simp only [Nd.content, List.append_assoc, List.cons_append] at he
+    obtain ⟨e1, e2, e3⟩ := List.split_unique (fun kv : K × V => lvl kv.1 = L)
+      lt1.content lt2.content (k1, v1) (k2, v2) _ _
+      (fun x hx => Nat.ne_of_lt (LvPg_content_lt lvl L lt1 h1.1 x hx))
+      (fun x hx => Nat.ne_of_lt (LvPg_content_lt lvl L lt2 h2.1 x hx))
+      h1.2.1 h2.2.1 he
+    have elt := shape_uniquePg lvl lt1 lt2 L L h1.1 h2.1 e1
+    obtain ⟨etl, er⟩ := shape_uniqueNd lvl tl1 tl2 L r1 r2 h1.2.2 h2.2.2 hr1 hr2 e3
+    simp only [Prod.mk.injEq] at e2
+    simp only [Nd.erase, elt, e2.1, e2.2, etl, er, and_self]
+end
 
 /-- Two level-stratified subtrees with the same in-order content have the same shape.
 (Ordering is not needed: stratification and non-emptiness alone force the shape.) -/
 theorem shape_unique (lvl : K → Nat) (b1 b2 : Nat) (p q : Pg K V D)
-    (hp : LvPg lvl b1 p) (hq : LvPg lvl b2 q) (h : p.content = q.content) : p.erase = q.erase := by
-  sorry
+    (hp : LvPg lvl b1 p) (hq : LvPg lvl b2 q) (h : p.content = q.content) : p.erase = q.erase :=
+  shape_uniquePg lvl p q b1 b2 hp hq h
 
 theorem root_unique (lvl : K → Nat) (p q : Pg K V D)
     (hp : LvRoot lvl p) (hq : LvRoot lvl q) (h : p.content = q.content) : p.erase = q.erase := by
-  sorry
+  cases p with
+  | none => exact absurd hp (by simp [LvRoot])
+  | some L1 c1 n1 h1 =>
+  cases q with
+  | none => exact absurd hq (by simp [LvRoot])
+  | some L2 c2 n2 h2 =>
+    simp only [LvRoot] at hp hq
+    by_cases e1 : n1 = .nil
+    · by_cases e2 : n2 = .nil
+      · obtain ⟨a1, a2⟩ := hp.1 e1
+        obtain ⟨a3, a4⟩ := hq.1 e2
+        subst e1 e2 a1 a2 a3 a4
+        rfl
+      · obtain ⟨a1, a2⟩ := hp.1 e1
+        subst e1 a1 a2
+        have hq' : LvPg lvl (L2 + 1) (.some L2 c2 n2 h2) := by
+          simp only [LvPg]; exact ⟨Nat.lt_succ_self _, e2, hq.2⟩
+        exact absurd h.symm (LvPg_some_content_ne_nil lvl _ L2 c2 n2 h2 hq')
+    · have hp' : LvPg lvl (L1 + 1) (.some L1 c1 n1 h1) := by
+        simp only [LvPg]; exact ⟨Nat.lt_succ_self _, e1, hp.2⟩
+      by_cases e2 : n2 = .nil
+      · obtain ⟨a3, a4⟩ := hq.1 e2
+        subst e2 a3 a4
+        exact absurd h (LvPg_some_content_ne_nil lvl _ L1 c1 n1 h1 hp')
+      · have hq' : LvPg lvl (L2 + 1) (.some L2 c2 n2 h2) := by
+          simp only [LvPg]; exact ⟨Nat.lt_succ_self _, e2, hq.2⟩
+        exact shape_unique lvl _ _ _ _ hp' hq' h
 
 /-! ### L4: Merkle injectivity up to digest collisions -/
 
@@ -100,14 +406,63 @@ whose byte encodings coincide (the encoding has no length prefixes). -/
 def CollisionFree (hc : HashCfg K V D) (S : List (PageTok K V D)) : Prop :=
   ∀ a ∈ S, ∀ b ∈ S, hc.h (encodeTok hc a) = hc.h (encodeTok hc b) → a = b
 
+theorem CollisionFree.mono (hc : HashCfg K V D) {S T : List (PageTok K V D)}
+    (hST : ∀ x ∈ S, x ∈ T) (hT : CollisionFree hc T) : CollisionFree hc S :=
+  fun a ha b hb e => hT a (hST a ha) b (hST b hb) e
+
+theorem hashBytes_eq_optBytes (hc : HashCfg K V D) (p : Pg K V D) :
+    p.hashBytes hc = optBytes hc (p.trueHash hc) := by
+  cases p <;> simp [Pg.hashBytes, Pg.trueHash, optBytes]
+
+theorem hashBytes_eq_encodeToks (hc : HashCfg K V D) :
+    (n : Nd K V D) → n.hashBytes hc = encodeToks hc (n.toks hc)
+  | .nil => rfl
+  | .cons lt k v tl => by
+    simp only [Nd.hashBytes, Nd.toks, encodeToks, hashBytes_eq_optBytes hc lt,
+      hashBytes_eq_encodeToks hc tl]
+
 theorem trueHash_eq_encode (hc : HashCfg K V D) (L : Nat) (c : Option D) (n : Nd K V D) (h : Pg K V D) :
     (Pg.some L c n h).trueHash hc = some (hc.h (encodeTok hc (n.toks hc, h.trueHash hc))) := by
-  sorry
+  simp only [Pg.trueHash, encodeTok, hashBytes_eq_encodeToks hc n, hashBytes_eq_optBytes hc h]
+
+mutual
+theorem merkle_injPg (hc : HashCfg K V D) : (p q : Pg K V D) →
+    CollisionFree hc (p.allToks hc ++ q.allToks hc) →
+    p.trueHash hc = q.trueHash hc → p.content = q.content
+  | .none, .none, _, _ => rfl
+  | .none, .some .., _, h => by simp [Pg.trueHash] at h
+  | .some .., .none, _, h => by simp [Pg.trueHash] at h
+  | .some L1 c1 n1 h1, .some L2 c2 n2 h2, hcf, h => by
+    rw [trueHash_eq_encode, trueHash_eq_encode, Option.some.injEq] at h
+    have e := hcf _ (by simp [Pg.allToks]) _ (by simp [Pg.allToks]) h
+    simp only [Prod.mk.injEq] at e
+    have en := merkle_injNd hc n1 n2
+      (hcf.mono hc (by intro x hx; simp only [Pg.allToks, List.mem_append, List.mem_cons] at hx ⊢; rcases hx with hx | hx <;> simp [hx]))
+      e.1
+    have eh := merkle_injPg hc h1 h2
+      (hcf.mono hc (by intro x hx; simp only [Pg.allToks, List.mem_append, List.mem_cons] at hx ⊢; rcases hx with hx | hx <;> simp [hx]))
+      e.2
+    simp only [Pg.content, en, eh]
+theorem merkle_injNd (hc : HashCfg K V D) : (n m : Nd K V D) →
+    CollisionFree hc (n.allToks hc ++ m.allToks hc) →
+    n.toks hc = m.toks hc → n.content = m.content
+  | .nil, .nil, _, _ => rfl
+  | .nil, .cons .., _, h => by simp [Nd.toks] at h
+  | .cons .., .nil, _, h => by simp [Nd.toks] at h
+  | .cons lt1 k1 v1 tl1, .cons lt2 k2 v2 tl2, hcf, h => by
+    simp only [Nd.toks, List.cons.injEq, Prod.mk.injEq] at h
+    obtain ⟨⟨el, ek, ev⟩, et⟩ := h
+    have e1 := merkle_injPg hc lt1 lt2
+      (hcf.mono hc (by intro x hx; simp only [Nd.allToks, List.mem_append] at hx ⊢; rcases hx with hx | hx <;> simp [hx])) el
+    have e2 := merkle_injNd hc tl1 tl2
+      (hcf.mono hc (by intro x hx; simp only [Nd.allToks, List.mem_append] at hx ⊢; rcases hx with hx | hx <;> simp [hx])) et
+    simp only [Nd.content, e1, e2, ek, ev]
+end
 
 /-- Equal digests force equal content, for pages whose pre-images are collision free. -/
 theorem merkle_inj (hc : HashCfg K V D) (p q : Pg K V D)
     (hcf : CollisionFree hc (p.allToks hc ++ q.allToks hc))
-    (h : p.trueHash hc = q.trueHash hc) : p.content = q.content := by
-  sorry
+    (h : p.trueHash hc = q.trueHash hc) : p.content = q.content :=
+  merkle_injPg hc p q hcf h
 
 end Mst
